@@ -1176,7 +1176,9 @@ impl Locomotive {
 }
 
 fn set_pwr_lims(state: &mut LocomotiveState, edrv: &ElectricDrivetrain) {
-    state.pwr_out_max = edrv.state.pwr_mech_out_max;
+    // a unit whose source cannot even cover its own aux load has no traction to
+    // offer; a negative limit would make the consist assign it braking while pushing
+    state.pwr_out_max = edrv.state.pwr_mech_out_max.max(si::Power::ZERO);
     state.pwr_rate_out_max = edrv.state.pwr_rate_out_max;
     state.pwr_regen_max = edrv.state.pwr_mech_regen_max;
 }
